@@ -92,7 +92,7 @@ def build_class(spec, name=None):
             kw['export'] = c['export']
         ns = {'rm': rm, 'cname': cname, 'resval': c.get('resval'), 'rec': rec}
         if c.get('arg') and c['arg']['k'] == 'struct':
-            opt = set(c.get('optional_args', []))
+            opt = set(c['arg'].get('optional', []))
             sig = ', '.join(f'{n}=None' if n in opt else n for n in sorted(c['arg']['members'], key=lambda n: n in opt))
             body = '{' + ', '.join(f'{n!r}: {n}' for n in c['arg']['members']) + '}'
         elif c.get('arg') and c['arg']['k'] == 'tuple':
@@ -109,8 +109,35 @@ def build_class(spec, name=None):
                f'    return resval\n')
         exec(src, ns)   # noqa: generated function with a real signature (needed for struct arguments)
         attrs[cname] = Command(arg, result=res, **kw)(ns[cname])
-    cls = type(name or f'Gen{next(_n)}', (bases[spec.get('base', 'Module')],), attrs)
+    blist = [bases[spec.get('base', 'Module')]]
+    if spec.get('feature'):
+        from frappy.core import Feature
+        from frappy.datatypes import FloatRange
+        feat = type('Feat', (Feature,), {'featpar': Parameter('feature parameter', FloatRange(0, 10), default=1, readonly=False)})
+        blist.insert(0, feat)
+    cls = type(name or f'Gen{next(_n)}', tuple(blist), attrs)
     return cls
+
+
+DOUBLE = {'k': 'double', 'min': None, 'max': None, 'abs': 0.0, 'rel': 1.2e-7}
+POLLINT = {'k': 'double', 'min': 0.1, 'max': 120.0, 'abs': 0.0, 'rel': 1.2e-7, 'unit': 's'}
+
+
+def inherited(spec):
+    """accessibles a generated class gets from its base: -> (params in wire order, commands)"""
+    base = spec.get('base', 'Module')
+    params = []
+    if base != 'Module':
+        params.append({'name': 'value', 'T': DOUBLE, 'default': 0.0, 'readonly': True, 'export': 'value'})
+        params.append({'name': 'status', 'T': None, 'readonly': True, 'export': 'status'})
+        if base != 'Readable':
+            # unit '$' stays literally while the value has no unit (it may be set later, see test_deferred_main_unit)
+            params.append({'name': 'target', 'T': dict(DOUBLE, unit='$'), 'default': 0.0, 'readonly': False, 'export': 'target', 'write': None})
+        params.append({'name': 'pollinterval', 'T': POLLINT, 'default': 5.0, 'readonly': False, 'export': 'pollinterval', 'write': None})
+    cmds = ['stop'] if base == 'Drivable' else []
+    feat = [{'name': 'featpar', 'T': {'k': 'double', 'min': 0.0, 'max': 10.0, 'abs': 0.0, 'rel': 1.2e-7}, 'default': 1.0,
+             'readonly': False, 'export': True, 'write': None}] if spec.get('feature') else []
+    return params, cmds, feat
 
 
 def wire_name(name, export, predefined=False):
